@@ -95,6 +95,11 @@ type leaderState struct {
 	replState                    map[ServerID]*followerReplication
 	notify                       map[*verifyFuture]struct{}
 	stepDown                     chan struct{}
+	// term is the term this server was elected leader in. Everything it does
+	// as leader carries this term, not the current term: a transport with a
+	// heartbeat fast path changes the current term from its own goroutine
+	// before the leader loop notices that it has been deposed.
+	term uint64
 }
 
 // setLeader is used to modify the current leader Address and ID of the cluster
@@ -487,6 +492,8 @@ func (r *Raft) setupLeaderState() {
 // runLeader runs the main loop while in leader state. Do the setup here and drop into
 // the leaderLoop for the hot loop.
 func (r *Raft) runLeader() {
+	// The term we have been elected in.
+	term := r.getCurrentTerm()
 	r.logger.Info("entering leader state", "leader", r)
 	verifHook("leader.enter", r, r.getCurrentTerm(), r.getLastIndex(), 0, 0)
 	metrics.IncrCounter([]string{"raft", "state", "leader"}, 1)
@@ -515,6 +522,7 @@ func (r *Raft) runLeader() {
 	// setup leader state. This is only supposed to be accessed within the
 	// leaderloop.
 	r.setupLeaderState()
+	r.leaderState.term = term
 
 	// Run a background go-routine to emit metrics on log age
 	stopCh := make(chan struct{})
@@ -582,6 +590,17 @@ func (r *Raft) runLeader() {
 		}
 	}()
 
+	// Delivering the notification above blocks for as long as the consumer of
+	// NotifyCh takes, and a transport with a heartbeat fast path hands
+	// heartbeats to processHeartbeat on its own goroutine meanwhile: a newer
+	// leader may already have made us a follower in a later term. Never start
+	// replicating or append the no-op under a term we were not elected in.
+	if r.getState() != Leader || r.getCurrentTerm() != term {
+		r.logger.Warn("lost leadership before the leader loop started",
+			"elected-term", term, "current-term", r.getCurrentTerm())
+		return
+	}
+
 	// Start a replication routine for each peer
 	r.startStopReplication()
 
@@ -623,7 +642,7 @@ func (r *Raft) startStopReplication() {
 				stopCh:              make(chan uint64, 1),
 				triggerCh:           make(chan struct{}, 1),
 				triggerDeferErrorCh: make(chan *deferError, 1),
-				currentTerm:         r.getCurrentTerm(),
+				currentTerm:         r.leaderState.term,
 				nextIndex:           lastIdx + 1,
 				lastContact:         time.Now(),
 				notify:              make(map[*verifyFuture]struct{}),
@@ -1168,7 +1187,7 @@ func (r *Raft) restoreUserSnapshot(meta *SnapshotMeta, reader io.Reader) error {
 	// index in the snapshot. It's important that we leave a hole in
 	// the index so we know there's nothing in the Raft log there and
 	// replication will fault and send the snapshot.
-	term := r.getCurrentTerm()
+	term := r.leaderState.term
 	lastIndex := r.getLastIndex()
 	if meta.Index > lastIndex {
 		lastIndex = meta.Index
@@ -1280,7 +1299,7 @@ func (r *Raft) dispatchLogs(applyLogs []*logFuture) {
 	now := time.Now()
 	defer metrics.MeasureSince([]string{"raft", "leader", "dispatchLog"}, now)
 
-	term := r.getCurrentTerm()
+	term := r.leaderState.term
 	lastIndex := r.getLastIndex()
 
 	n := len(applyLogs)
